@@ -230,7 +230,7 @@ impl Prop for C19 {
             }
         };
         o.evals = 1;
-        if c12::has_reference_cycle(src) {
+        if c12::reference_cycle_can_grow(src) {
             o.class("skipped-reference-cycle(C12)");
             return o;
         }
